@@ -289,9 +289,134 @@ fn main_parse(args: &[String]) {
 	println!("{count}");
 }
 
+macro_rules! path_session {
+	($out:ident, $n:ident, $r:ident, $pm:ident, $m:ident, $calls:expr) => {{
+		for _ in 0..$calls {
+			let k = $r.gen_range(0..100);
+			let (op, arg, args): (&str, String, Vec<String>) = match k {
+				0..=34 => ("push", pick(&mut $r, SEGS).to_string(), vec![]),
+				35..=54 => ("sym_push", pick(&mut $r, SEGS).to_string(), vec![]),
+				55..=64 => ("sym_append", String::new(), (0..$r.gen_range(1..4)).map(|_| pick(&mut $r, SEGS).to_string()).collect()),
+				65..=84 => ("pop", String::new(), vec![]),
+				85..=89 => ("clear", String::new(), vec![]),
+				_ => ("normalize", String::new(), vec![]),
+			};
+			let Ok(seg) = iref::$m::Segment::new(arg.as_str()) else { continue };
+			let segs: Vec<&iref::$m::Segment> = match args.iter().map(|s| iref::$m::Segment::new(s.as_str())).collect::<Result<Vec<_>, _>>() { Ok(v) => v, Err(_) => continue };
+			let res = guard(|| {
+				match op {
+					"push" => $pm.push(seg),
+					"sym_push" => $pm.symbolic_push(seg),
+					"sym_append" => $pm.symbolic_append(segs.iter().copied()),
+					"pop" => { $pm.pop(); }
+					"clear" => $pm.clear(),
+					_ => $pm.normalize(),
+				}
+				$pm.as_str().to_string()
+			});
+			let mut ev = json!({"ev": "call_path", "op": op, "arg": enc(&arg), "args": args.iter().map(|a| enc(a)).collect::<Vec<_>>()});
+			match res {
+				Ok(v) => { ev["view"] = enc(&v); ev["panic"] = json!(false); writeln!($out, "{ev}").unwrap(); $n += 1; }
+				Err(m) => { ev["view"] = json!([]); ev["panic"] = json!(true); ev["msg"] = json!(m); writeln!($out, "{ev}").unwrap(); $n += 1; break; }
+			}
+		}
+	}};
+}
+
+macro_rules! auth_session {
+	($out:ident, $n:ident, $r:ident, $buf:ident, $m:ident, $calls:expr) => {{
+		let mut am = $buf.authority_mut().expect("authority");
+		for _ in 0..$calls {
+			let (op, arg): (&str, Option<String>) = match $r.gen_range(0..3) {
+				0 => ("set_userinfo", if $r.gen_bool(0.7) { Some(pick(&mut $r, USERS).to_string()) } else { None }),
+				1 => ("set_host", Some(pick(&mut $r, HOSTS).to_string())),
+				_ => ("set_port", if $r.gen_bool(0.7) { Some(pick(&mut $r, PORTS).to_string()) } else { None }),
+			};
+			let res = guard(|| {
+				match op {
+					"set_userinfo" => am.set_userinfo(arg.as_deref().map(|x| iref::$m::UserInfo::new(x).unwrap())),
+					"set_host" => am.set_host(iref::$m::Host::new(arg.as_deref().unwrap()).unwrap()),
+					_ => am.set_port(arg.as_deref().map(|x| iref::$m::Port::new(x).unwrap())),
+				}
+				am.as_authority().as_str().to_string()
+			});
+			let mut ev = json!({"ev": "call_auth", "op": op, "arg": match &arg { Some(a) => enc(a), None => json!([-1]) }});
+			match res {
+				Ok(v) => { ev["view"] = enc(&v); ev["panic"] = json!(false); writeln!($out, "{ev}").unwrap(); $n += 1; }
+				Err(m) => { ev["view"] = json!([]); ev["panic"] = json!(true); ev["msg"] = json!(m); writeln!($out, "{ev}").unwrap(); $n += 1; break; }
+			}
+		}
+	}};
+}
+
+/// drive sessions <seed> <n> <out>: sessions of 5-40 calls through ONE handle.
+fn main_sessions(args: &[String]) {
+	let seed: u64 = args[2].parse().expect("seed");
+	let n: usize = args[3].parse().expect("n");
+	let mut out = BufWriter::new(File::create(&args[4]).expect("create events"));
+	let mut r = StdRng::seed_from_u64(seed);
+	let mut count = 0u64;
+	for i in 0..n {
+		let calls = r.gen_range(5..40);
+		let text = gen_ref(&mut r);
+		let Ok(rf) = iref::iri::IriRef::new(text.as_str()) else { continue };
+		let p = rf.parts();
+		let o = |x: Option<&str>| match x { Some(s) => enc(s), None => json!([-1]) };
+		if i % 3 == 0 {
+			// stand-alone path buffer
+			let abs0 = r.gen_bool(0.5);
+			let init = gen_path(&mut r, abs0);
+			let Ok(mut buf) = iref::iri::PathBuf::new(init.clone()) else { continue };
+			writeln!(out, "{}", json!({"ev": "open_path", "fam": "iri", "kind": "path", "scheme": [-1], "authority": [-1], "query": [-1], "fragment": [-1], "init": enc(&init)})).unwrap();
+			count += 1;
+			{
+				let mut pm = buf.as_path_mut();
+				path_session!(out, count, r, pm, iri, calls);
+			}
+			writeln!(out, "{}", json!({"ev": "close_path", "text": enc(buf.as_str())})).unwrap();
+			count += 1;
+		} else if i % 3 == 1 || p.authority.is_none() {
+			let full = p.scheme.is_some() && r.gen_bool(0.5);
+			let open = json!({"ev": "open_path", "fam": "iri", "kind": if full { "full" } else { "ref" }, "scheme": o(p.scheme.map(|x| x.as_str())),
+				"authority": o(p.authority.map(|x| x.as_str())), "query": o(p.query.map(|x| x.as_str())), "fragment": o(p.fragment.map(|x| x.as_str())), "init": enc(p.path.as_str())});
+			writeln!(out, "{open}").unwrap();
+			count += 1;
+			if full {
+				let mut buf = iref::iri::IriBuf::new(text.clone()).unwrap();
+				{ let mut pm = buf.path_mut(); path_session!(out, count, r, pm, iri, calls); }
+				writeln!(out, "{}", json!({"ev": "close_path", "text": match std::str::from_utf8(buf.as_bytes()) { Ok(s) => enc(s), Err(_) => json!([1114112]) }})).unwrap();
+			} else {
+				let mut buf = iref::iri::IriRefBuf::new(text.clone()).unwrap();
+				{ let mut pm = buf.path_mut(); path_session!(out, count, r, pm, iri, calls); }
+				writeln!(out, "{}", json!({"ev": "close_path", "text": match std::str::from_utf8(buf.as_bytes()) { Ok(s) => enc(s), Err(_) => json!([1114112]) }})).unwrap();
+			}
+			count += 1;
+		} else {
+			let full = p.scheme.is_some() && r.gen_bool(0.5);
+			writeln!(out, "{}", json!({"ev": "open_auth", "fam": "iri", "kind": if full { "full" } else { "ref" }, "text": enc(&text)})).unwrap();
+			count += 1;
+			if full {
+				let mut buf = iref::iri::IriBuf::new(text.clone()).unwrap();
+				auth_session!(out, count, r, buf, iri, calls);
+				writeln!(out, "{}", json!({"ev": "close_auth", "text": match std::str::from_utf8(buf.as_bytes()) { Ok(s) => enc(s), Err(_) => json!([1114112]) }})).unwrap();
+			} else {
+				let mut buf = iref::iri::IriRefBuf::new(text.clone()).unwrap();
+				auth_session!(out, count, r, buf, iri, calls);
+				writeln!(out, "{}", json!({"ev": "close_auth", "text": match std::str::from_utf8(buf.as_bytes()) { Ok(s) => enc(s), Err(_) => json!([1114112]) }})).unwrap();
+			}
+			count += 1;
+		}
+	}
+	out.flush().unwrap();
+	println!("{count}");
+}
+
 fn main() {
 	let args: Vec<String> = std::env::args().collect();
 	install_panic_hook();
+	if args.len() >= 5 && args[1] == "sessions" {
+		return main_sessions(&args);
+	}
 	if args.len() >= 5 && args[1] == "parse" {
 		return main_parse(&args);
 	}
